@@ -23,6 +23,7 @@ type w2Opts struct {
 	sessions, indexes, sequences, bigRanges, restarts, crashes bool
 	nops int
 	cfgMod func(*server.Config)
+	preStart func(w *World) // after the world exists, before the first node starts
 }
 
 var c12Keys = []string{"a", "b", "c", "d", "k/1", "k/2", "k/3", "k/1/x", "k/1/y", "k/2/x", "/", "/a", "a/", "m-n", "z", "zz/top/deep/er"}
@@ -480,6 +481,9 @@ func newW2(r *Run, tag string, opts w2Opts) *w2Workload {
 	r.Knobs["wal_segment"] = wal.DefaultFactoryOptions.SegmentSize
 	wl := &w2Workload{r: r, w: w, g: g, opts: opts, closed: map[int64]bool{}}
 	wl.nodeDir = filepath.Join(w.Root, "n1")
+	if opts.preStart != nil {
+		opts.preStart(w)
+	}
 	node := w.StartNode("n1", wl.nodeDir, opts.cfgMod)
 	wl.c = newShardCtl(w, node)
 	return wl
